@@ -199,6 +199,9 @@ func (f *FuncCtx) exprMulti(e ast.Expr, env *Env) []Val {
 	case *ast.UnaryExpr:
 		return []Val{f.unary(e, env)}
 	case *ast.BinaryExpr:
+		if f.spec != nil && e.Op == token.LOR {
+			return []Val{f.specExpr(e, env)} // may encode ==> / <==>
+		}
 		return []Val{f.binary(e, env)}
 	case *ast.StarExpr:
 		x := f.expr(e.X, env)
@@ -394,13 +397,15 @@ func (f *FuncCtx) unary(e *ast.UnaryExpr, env *Env) Val {
 		}
 		return Val{T: fmt.Sprintf("(some %s)", x.T), Typ: t}
 	case token.ARROW:
-		// channel receive: havoc
+		// channel receive: havoc (the channel expression is still evaluated: it may be a call)
+		chv := f.expr(e.X, env)
+		_ = chv
 		t := f.typeOf(e)
 		if tup, ok := t.(*types.Tuple); ok {
 			t = tup.At(0).Type()
 		}
-		if t == nil {
-			if c, ok := f.expr(e.X, env).Typ.Underlying().(*types.Chan); ok {
+		if t == nil && chv.Typ != nil {
+			if c, ok := chv.Typ.Underlying().(*types.Chan); ok {
 				t = c.Elem()
 			}
 		}
